@@ -50,6 +50,19 @@ def gen_graph(rng, n, shape):
         for _ in range(rng.randint(0, 2)):
             i = rng.randrange(n)
             E.add((i, rng.randrange(i, n)))
+    elif shape == 'twocycles':
+        # two cycles (first and second half of the states), every state with
+        # a self-loop, the first cycle leading into the second: two fair
+        # components that different constraints can tell apart
+        h = max(1, n // 2)
+        for i in range(n):
+            E.add((i, i))
+        for i in range(h):
+            E.add((i, (i + 1) % h))
+        for i in range(h, n):
+            E.add((i, h + (i + 1 - h) % (n - h)))
+        if n > h:
+            E.add((rng.randrange(h), rng.randrange(h, n)))
     elif shape == 'fairfriendly':
         # every state has a self-loop and lies on a cycle: fair-state sets
         # are non-empty and (known finding KF1 aside) order-independent
